@@ -1,7 +1,7 @@
 #!/bin/sh
 # usage: tools/validate_mutant.sh <mutant dir> : confirms in a scratch worktree that (1) the patch applies, (2) the 81 fixtures
 # still pass with it, (3) the demonstration fails with it and (4) passes without it. Prints one summary line.
-d="$1"; wt=/tmp/val-wt
+d="$1"; wt=${2:-/tmp/val-wt}
 patch="$d/patch.rebased.diff"; [ -f "$patch" ] || patch="$d/patch.diff"
 demo=$(ls "$d"/demo*.rs 2>/dev/null | head -1)
 [ -d $wt ] || git -C /repo worktree add -q --detach $wt HEAD
